@@ -10,6 +10,7 @@ use super::query::{check_prefix, check_range, check_seeks, gen_bound, gen_prefix
 use crate::cur::{first_diff, scan_backward, scan_forward};
 use crate::decoder::MAGIC_V1;
 use crate::gen;
+use crate::io_mon::{MonSource, Split, SplitState};
 use crate::json::J;
 use crate::verdict::{guarded, Ctx};
 
@@ -26,7 +27,7 @@ pub fn to_v1(bytes: &[u8]) -> Vec<u8> {
 }
 
 pub fn run(ctx: &Ctx) -> i32 {
-    let sizes = Sizes { random: (900, 25_000), deep: (0, 0), level0_only: true, max_levels: 0, budget: 40_000 };
+    let sizes = Sizes { random: (3000, 30_000), deep: (0, 0), level0_only: true, max_levels: 0, budget: 40_000 };
     let per_file = ctx.tier.pick(20, 120);
     for_each_file(ctx, &sizes, |b, rng| {
         let v1 = to_v1(&b.bytes);
@@ -57,6 +58,35 @@ pub fn run(ctx: &Ctx) -> i32 {
         // root offset differ unless the file is empty.
         if !b.entries.is_empty() {
             ctx.count("v1_files_with_distinct_nonzero_count_and_offset", 1);
+        }
+        // every third file is also opened and scanned through a source that splits or interrupts
+        // reads (V1 results must not depend on that either)
+        if b.idx % 3 == 0 {
+            let data = std::sync::Arc::new(v1.clone());
+            for split in [Split::One, Split::Rand, Split::IntrEvery(2), Split::Chaos] {
+                let qs = Q { ctx, stream: b.stream, idx: b.idx, label: &b.label, cfg: b.cfg.render(), entries: &b.entries, sig: "v1-split-" };
+                let seed = rng.next_u64();
+                let src = MonSource::new("source", data.clone(), SplitState::new(split.clone(), seed), None);
+                ctx.count("v1_opens_under_read_schedules", 1);
+                match guarded(|| Reader::new(src)) {
+                    Ok(Ok(r)) => {
+                        if r.file_version() != FileVersion::FormatV1 || r.len() != b.entries.len() as u64 || r.compression_type() != b.cfg.codec {
+                            qs.viol("metadata-differs", "V1 metadata differs under a split/interrupting source", split.name(), format!("V1, {} entries, {:?}", b.entries.len(), b.cfg.codec), format!("{:?}, {} entries, {:?}", r.file_version(), r.len(), r.compression_type()));
+                        } else if let Ok(Ok(mut c)) = guarded(|| r.into_cursor()) {
+                            match scan_forward(&mut c, b.entries.len() + 2) {
+                                Ok(got) => {
+                                    if let Some(d) = first_diff(&b.entries, &got) {
+                                        qs.viol("forward-scan-differs", "V1 scan differs under a split/interrupting source", split.name(), "inserted list".into(), d);
+                                    }
+                                }
+                                Err(e) => qs.viol("forward-scan-failed", "V1 scan fails under a split/interrupting source", split.name(), "inserted list".into(), e),
+                            }
+                        }
+                    }
+                    Ok(Err(e)) => qs.viol("open-failed", "V1 file does not open under a split/interrupting source", split.name(), "Ok".into(), e.to_string()),
+                    Err(p) => qs.viol("open-failed", "opening panicked", split.name(), "Ok".into(), p),
+                }
+            }
         }
         let mk = || Cursor::new(&v1[..]);
         let limit = b.entries.len() + 2;
